@@ -227,6 +227,8 @@ class ProgGen(object):
             if r.random() < 0.2:
                 opt = ''
                 self.features.add('optional-default-empty')
+            elif r.random() < 0.15:
+                opt = self.braced_edges()
         if cross and r.random() < 0.15:
             old = r.choice(cross)
             name, rank = old.name, old.rank
@@ -257,6 +259,19 @@ class ProgGen(object):
         if opt is not None:
             head += '[%s]' % opt
         return head + '{%s}' % body
+
+    def braced_edges(self):
+        """a bracket argument that starts with one brace group and ends with another (only braces around the whole value are stripped)"""
+        r = self.r
+        self.features.add('optional-value-with-groups-at-both-ends')
+        k = r.random()
+        if k < 0.4:
+            return '{%s}%s{%s}' % (self.marker(), self.marker(), self.marker())
+        if k < 0.7:
+            return '{%s}{%s}' % (self.marker(), self.marker())
+        if k < 0.85:
+            return '{%s}' % self.marker()
+        return '{{%s}%s}' % (self.marker(), self.marker())
 
     def gen_let(self):
         r = self.r
@@ -367,7 +382,7 @@ class ProgGen(object):
             n = sig.nargs
             if sig.opt is not None:
                 if r.random() < 0.5:
-                    args += r.choice(['', ' ']) + '[' + self.arg_content(plain=True) + ']'
+                    args += r.choice(['', ' ']) + '[' + (self.braced_edges() if r.random() < 0.15 else self.arg_content(plain=True)) + ']'
                     self.features.add('optional-present')
                 else:
                     self.features.add('optional-absent')
